@@ -68,7 +68,7 @@ def build(case):
         for ln in a["lines"]:
             ln["seps"] = ["," if dlm == "COMMA" else "\t"] * max(0, len(ln["toks"]) - 1)
     # light noise: blank / comment lines at given positions of the data section
-    for pos, kind in sorted(case.get("noise", []), reverse=True):
+    for pos, kind in sorted((list(x) for x in case.get("noise", [])), reverse=True):
         ln = {"t": "blank", "text": ""} if kind == "b" else {"t": "comment", "text": "# note"}
         if kind == "i":
             # an indented comment whose word count is no column count of the file
@@ -136,7 +136,8 @@ def grid(tier):
                                     yield dict(d=d, c=c, r=r, engine=engine, sign=sign, dlm=dlm, mnemonic_case="lower")
                         if sign == "pos" and r <= 3 and c <= 6:
                             # what the last line of ~A looks like, with and without a following section
-                            for noise in ([[r, "b"]], [[r, "c"]], [[0, "c"]], [[r, "c"], [r, "b"]], [[r // 2, "i"]], [[0, "t"], [r, "i"]]):
+                            many = [[0, "c"]] * 11 + [[0, "b"]] * 11
+                            for noise in ([[r, "b"]], [[r, "c"]], [[0, "c"]], [[r, "c"], [r, "b"]], [[r // 2, "i"]], [[0, "t"], [r, "i"]], many):
                                 for after in ([], ["P"], ["O"]):
                                     yield dict(d=d, c=c, r=r, engine=engine, sign=sign, noise=noise, after=after)
                         if sign == "pos" and r <= 4:
@@ -183,6 +184,9 @@ def big_cases(draw):
     case["scaffold"] = draw(S_.scaffold())
     nlines = r if not wrapped else r * (c // case["wrap"] + 2)
     case["noise"] = draw(st.lists(st.tuples(st.one_of(st.integers(0, nlines), st.just(nlines)), st.sampled_from("bcit")), max_size=3))
+    if draw(st.integers(0, 7)) == 0:
+        # more comment / blank lines before the first data row than any sample of lines a sniffer may take
+        case["noise"] += [[0, draw(st.sampled_from("bcit"))] for _ in range(draw(st.integers(19, 30)))]
     case["mnemonic_case"] = draw(st.sampled_from(["upper", "upper", "lower", "preserve"]))
     case["after"] = draw(st.sampled_from([[], [], ["P"], ["O"], ["P", "O"]]))
     return case
